@@ -8,8 +8,9 @@ CONFIG = {'level': 'proof',
                  'ordered), wait atomically releases and enqueues, notify_one removes one arbitrary waiter if there '
                  'is one, notify_all removes all, spurious wake-ups allowed; BinaryHeap::pop returns a greatest '
                  'element',
-                 'usize arithmetic does not overflow (current_size + size_bytes < 2^64; proved in the model when every '
-                 'item has at most M bytes and max(cap, M) + M < 2^64); OS scheduling fairness is outside the model'],
+                 'usize arithmetic does not overflow (current_size + size_bytes < 2^64; proved in the model when '
+                 'every item has at most M bytes and max(cap, M) + M < 2^64); OS scheduling fairness is outside the '
+                 'model'],
  'timeout': {'quick': 600, 'thorough': 3000}}
 
 MANIFEST = {'category': 'proof',
@@ -17,15 +18,18 @@ MANIFEST = {'category': 'proof',
          'granularity (mutex, two condvars with arbitrary notify_one choice and spurious wake-ups), proved as '
          'invariants over all event sequences, i.e. all interleavings of any number of threads running arbitrary '
          'programs over push/try_push/pull/try_pull/close: conservation / exactly-once / nothing foreign, every take '
-         'maximal, current_size = sum of sizes, <= capacity whenever each item fits (in general: <= capacity or exactly '
-         'one oversize item queued, the admission rule after the repair of D5), no admit after close, end-of-stream only when closed and '
-         'empty, no waiter after close and every unfinished call completes in <= 2 own steps, no lost wake-up on '
-         'not_empty (any number of consumers) and on not_full (one producer: asleep => does not fit, queue non-empty, '
-         'open; weaker covered-ness and deadlock freedom for several, for all sizes, with a proved counterexample to the '
-         'strong form), an oversize push is admitted once the queue is empty. The model is tied to the code by replaying the under-lock event '
-         'log (hook H2) of real runs with 3..16 threads, seeded programs and seeded schedule perturbation through '
-         'the model (every event enabled, every snapshot equal), and the property is checked directly on the same '
-         "logs and on the callers' results, with a watchdog for hangs.",
+         'maximal, current_size = sum of sizes, <= capacity whenever each item fits (in general: <= capacity or '
+         'exactly one oversize item queued, the admission rule after the repair of D5), no admit after close, '
+         'end-of-stream only when closed and empty, no waiter after close and every unfinished call completes in <= '
+         '2 own steps, no lost wake-up on not_empty (any number of consumers) and on not_full (one producer: asleep '
+         '=> does not fit, queue non-empty, open; weaker covered-ness and deadlock freedom for several, for all '
+         'sizes, with a proved counterexample to the strong form), an oversize push is admitted once the queue is '
+         'empty. The model is tied to the code by replaying the under-lock event log (hook H2) of real runs with '
+         '3..16 threads, seeded programs and seeded schedule perturbation through the model (every event enabled, '
+         "every snapshot equal), and the property is checked directly on the same logs and on the callers' results, "
+         'with a watchdog for hangs. queue_refines_abstract / projected_calls_enabled: every run projects onto a run '
+         'of the completed-call queue used by the pipeline model; blocked_call_has_cause, internal_steps_terminate: '
+         'with one blocking producer no call sleeps while its guard holds unless a wake-up is in flight.',
  'design_ref': 'DESIGN.md §5 C06, §6 H2',
  'technique': 'Lean 4 invariant proofs over a transition system + trace-replay correspondence on real concurrent '
               'runs'}
